@@ -1,4 +1,41 @@
-(* Props/C08.v - property theorems only (under construction: the statement is in place once proved). *)
-From Coq Require Import List.
-From IGP Require Import Base.Str Model.Tree Model.Visual Gen.Wiring Tie.C08_tie.
+(* Props/C08.v - property theorems only.
+   C08: whenever the visual conversion reports success, its output is one syntactically valid JSON document.
+   Model: Model/Visual.v (byte-level port of PrintTree / PrintNodeTree / appendPropertyNodes /
+   appendAnnotations / appendDegreeOfVariability with the hand-placed separators), instantiated with the
+   tables regenerated from the source (Gen/Wiring.v: component order, property map, flat-string order,
+   complexity wiring).  Spec: Spec/Json.v (RFC 8259 over bytes). *)
+From Coq Require Import List Strings.Byte.
+From IGP Require Import Base.Str Base.Outcome Model.Tree Model.Visual Spec.Json Proofs.JsonLemmas Proofs.VisualJson Gen.Wiring Tie.C08_tie.
 Import ListNotations.
+
+(* for every statement value, every option vector (all 32), every fuel, and - the theorem is generic in
+   them - every order/property/flat table: a successful print is a JSON value.  The guard vwf_stmt says
+   exactly what the printer writes unescaped: component names must be plain string bodies, and no
+   node is the all-zero node (which prints nothing).  Texts, annotations, shared texts: any bytes. *)
+Theorem C08_valid : forall T o fuel st out,
+  vwf_stmt st = true -> vis_print T o fuel st = Ok out -> JV out.
+Proof. exact vis_print_json. Qed.
+Print Assumptions C08_valid.
+
+(* the instance the implementation runs: tables of the current source *)
+Theorem C08_valid_current_source : forall o fuel st out,
+  vwf_stmt st = true -> vis_print vis_T o fuel st = Ok out -> JsonText out.
+Proof. intros o fuel st out H1 H2. exists [], out, []. repeat split; try reflexivity. exact (vis_print_json vis_T o fuel st out H1 H2). rewrite app_nil_r. reflexivity. Qed.
+Print Assumptions C08_valid_current_source.
+
+(* every byte string becomes a legal JSON string body under the printer's escaping *)
+Theorem C08_escaping : forall s, SBody (esc s).
+Proof. exact esc_body. Qed.
+Print Assumptions C08_escaping.
+
+(* non-vacuity: hostile text, a combination, a nested statement, a property, annotations and DoV *)
+Example C08_example :
+  let leaf ct s := Leaf (mkMeta ct None (Some $"k=""v\") [] []) (EStr s) [] in
+  let inner := Stmt [(FA, leaf $"A" [x5c; x0a; x22])] in
+  let st := Stmt [(FA, Comb (mkMeta $"A" None None [$"sh"] []) OR (leaf [] [x09]) (leaf [] $"b"));
+                  (FAp, leaf $"A,p" $"p");
+                  (FCacC, Leaf (mkMeta $"Cac" None None [] []) (EStmt inner) [])] in
+  vwf_stmt st = true /\
+  forallb (fun o => is_ok (vis_print vis_T o (vis_fuel st) st))
+    [mkVopts false false true true false; mkVopts true true true true true; mkVopts true false false false true] = true.
+Proof. vm_compute. split; reflexivity. Qed.
